@@ -12,6 +12,7 @@ import (
 	"github.com/zenon-network/go-zenon/verifier"
 	"github.com/zenon-network/go-zenon/vm"
 	"github.com/zenon-network/go-zenon/vm/constants"
+	"github.com/zenon-network/go-zenon/vm/embedded"
 	"github.com/zenon-network/go-zenon/vm/embedded/definition"
 	"github.com/zenon-network/go-zenon/vm/vm_context"
 	"github.com/zenon-network/go-zenon/wallet"
@@ -124,7 +125,7 @@ func plasmaHistory(rng *rand.Rand, out *Out) {
 		switch {
 		case kind < 6: // plain transfer with data
 			b.ToAddress = users[rng.Intn(len(users))].Address
-			dl := []int{0, 0, 0, 1, 10, 100, 300, 1000}[rng.Intn(8)]
+			dl := []int{0, 0, 0, 1, 10, 100, 300, 1000, 16383, 16384, 16385}[rng.Intn(11)]
 			b.Data = make([]byte, dl)
 			rng.Read(b.Data)
 		case kind < 8: // contract call: plasma.Fuse with zero amount will fail validation -> use token burn of 0? keep simple: donate
@@ -160,6 +161,25 @@ func plasmaHistory(rng *rand.Rand, out *Out) {
 		uncommitted, _ := as.GetChainPlasma()
 		fusedAmt, _ := ms.GetStakeBeneficialAmount(b.Address)
 		base, baseErr := vm.GetBasePlasmaForAccountBlock(ctx, b)
+		{
+			// correspondence case for the base-cost model
+			toContract := types.IsEmbeddedAddress(b.ToAddress)
+			_, merr := embedded.GetEmbeddedMethod(ctx, b.ToAddress, b.Data)
+			found := toContract && merr == nil
+			key := big.NewInt(0)
+			if toContract && len(b.Data) >= 4 {
+				key = new(big.Int).SetBytes(append(append([]byte{}, b.ToAddress[:]...), b.Data[:4]...))
+			}
+			want := int64(-1)
+			if baseErr == nil {
+				want = int64(base)
+			}
+			btag := "transfer"
+			if toContract {
+				btag = "contract-call"
+			}
+			out.Case("base_plasma", Tup(false, toContract, found, Big(key), I64(int64(len(b.Data)))), I64(want), btag)
+		}
 		if baseErr != nil {
 			out.Count("plasma:base-error")
 			continue
